@@ -1,0 +1,7 @@
+//go:build verif
+// +build verif
+
+package lb
+
+// VerifSetRandInt replaces the random source of the random and least-connection balancers.
+func VerifSetRandInt(f func() int) { randInt = f }
